@@ -112,7 +112,7 @@ pub fn run(args: &Args) {
     let mut tr = Tr::create(&args.out);
     let mut rng = Rng::new(args.seed ^ 0x15);
     let sample = |n: usize, rng: &mut Rng| -> Vec<usize> {
-        if args.thorough { (0..n).collect() } else { (0..n).filter(|_| rng.below(10) == 0 || n < 12).collect() }
+        if args.thorough { (0..n).collect() } else { (0..n).filter(|_| rng.below(4) == 0 || n < 12).collect() }
     };
     // ---- PC-SAFT pure collections
     for f in ["pcsaft/gross2001.json", "pcsaft/gross2002.json", "pcsaft/gross2005_fit.json", "pcsaft/gross2005_literature.json", "pcsaft/gross2006.json",
